@@ -286,6 +286,9 @@ class BaseSection(base.Sectionable):
 
         # raises exception if path cannot be found
         new_section = self.get_section_by_path(new_value)
+        # A previous link may only be stored so far (assigned while the Section
+        # had no parent, or refused when it was to be resolved).
+        was_resolved = self._link is not None and self._merged is not None
         if self._link is not None:
             self.clean()
 
@@ -296,8 +299,11 @@ class BaseSection(base.Sectionable):
         except Exception:
             # The referenced Section cannot be merged (e.g. values that do not
             # fit): the link is refused and the Section stays as it was. A
-            # previous link has been unresolved above; resolve it again.
-            if self._link is not None:
+            # previous link that had been resolved has been unresolved above;
+            # resolve it again. A previous link that was only stored is still
+            # stored: there is nothing to restore, and assigning it here would
+            # only be refused again.
+            if was_resolved:
                 self.merge()
             raise
 
